@@ -660,6 +660,9 @@ fn contract(c: &Case) -> Result<(), &'static str> {
 }
 
 pub fn run_op(ctx: &mut Ctx, op: &str) {
+    if ctx.hang_limit_reached() {
+        return;
+    }
     let Some(c) = parse_op(op) else {
         ctx.record(op.to_string(), "bad-op".into(), false);
         return;
